@@ -4,7 +4,10 @@ Case kinds (all against the real code):
   str   : SigmaString(src): parts, plain form and its re-parse; convert_value_str of a TextQueryBackend
           subclass for each escaping configuration.  Deciding: the emitted literal, read by the target
           language's rules (Lean `decode`/`decodeQuoted`), equals the source's characters and wildcard
-          positions minus filtered ones; the plain form re-parses to the identical value.
+          positions minus filtered ones; the plain form re-parses to the identical value.  The same round trip as the
+          library itself performs it: the value sent through a replace_string item (both modes: on the plain form, which
+          is written and parsed again, and part by part) whose expression matches nothing must come back identical, and
+          one that rewrites a plain letter must change that letter only (characters and wildcard positions otherwise kept).
   regex : SigmaString(src).to_regex(): Python's own `re.fullmatch` on every subject up to a length bound
           over the pattern's alphabet must agree with the glob meaning of the pattern (Lean `glob`).
   slice : s[:-1], s[1:], s[1:-1], startswith/endswith/contains_special vs the model (used by C01).
@@ -23,13 +26,15 @@ RULE = ("source strings = all strings up to a length bound over {\\\\, *, ?, \",
         "escaped, filter; quoted and unquoted); regex form compared with Python re.fullmatch on all subjects <= 4 over the "
         "pattern's alphabet; field names over {a, space, \\\\, ', \", .}; distinct = distinct (kind, source); "
         "non-trivial = contains a backslash, wildcard, quote or filtered character"
-        "; escaping configurations incl. quote among the filtered characters and conditional quoting; values obtained by stripping wildcards; regex literals with and without a string layer; field configurations incl. a derived backend class")
+        "; escaping configurations incl. quote among the filtered characters and conditional quoting; values obtained by stripping wildcards; regex literals with and without a string layer; field configurations incl. a derived backend class"
+        "; every source string through replace_string items (plain-form mode and part-wise mode; an expression matching nothing, a single-letter rewrite): the plain form written and parsed again by the library")
 ASSUMPTIONS = [
     "the Sigma escaping rules (backslash escapes a following backslash/wildcard, is literal otherwise) are the specification of the source reading",
     "target-language reading of a literal = greedy token reading (escape, multi-token, single-token, plain); Python's re is the target for the regex form",
     "regex subjects contain no line terminators",
     "field_escape_pattern is modelled as a character class; str/field quote patterns: always-quote or never-quote configurations only",
     "target-language reading of a quoted field name: the escape string makes the next character literal, the first unescaped quote string ends the name (text after it = terminated early)",
+    "replace_string is the library's own 'plain form, parsed again' path (sigma/processing/transformations/values.py); its regular expression engine is Python's re",
 ]
 ALPHA = ["\\", "*", "?", '"', "'", ":", ".", "(", "a", "ä", "&", "%"]
 
@@ -65,6 +70,8 @@ FIELD_CFGS = [
     {"name": "dq-derived", "escape": "\\", "chars": " \\", "escapeQuote": True, "quote": '"', "always": True, "parent": "q-esc"},
 ]
 FIELD_ALPHA = ["a", " ", "\\", "'", '"', "."]
+# replace_string items every source string is sent through: (name, regex, replacement, skip_special); "id" = matches nothing
+REPLACERS = [("id-plain", "ZZZZ", "Y", False), ("id-parts", "ZZZZ", "Y", True), ("a2z-plain", "a", "z", False), ("a2z-parts", "a", "z", True)]
 
 
 def gen_cases(tier, seed, gen, effort):
@@ -150,6 +157,14 @@ def field_backend_for(cfg):
         if cfg.get("parent"):
             base = type(field_backend_for(next(c for c in FIELD_CFGS if c["name"] == cfg["parent"])))
         _backends[key] = type("F_" + re.sub(r"\W", "_", cfg["name"]), (base,), attrs)()
+    return _backends[key]
+
+
+def replacer(name, rx, rep, skip):
+    from sigma.processing.transformations import ReplaceStringTransformation
+    key = "rs:" + name
+    if key not in _backends:
+        _backends[key] = ReplaceStringTransformation(regex=rx, replacement=rep, skip_special=skip)
     return _backends[key]
 
 
@@ -248,6 +263,13 @@ def run_impl(case):
                         out["convs"].append({"cfg": cfg["name"], "how": how, "quoted": quoted, "text": cps(b.convert_value_str(v, ConversionState()))})
                     except Exception as e:
                         out["convs"].append({"cfg": cfg["name"], "how": how, "err": outcome_of_exception(e)})
+            out["replaced"] = []
+            for name, rx, rep, skip in REPLACERS:
+                try:
+                    r = replacer(name, rx, rep, skip).apply_value("f", SigmaString(case["src"]))
+                    out["replaced"].append({"t": name, "parts": parts_json(r) if isinstance(r, SigmaString) else None, "type": type(r).__name__})
+                except Exception as e:
+                    out["replaced"].append({"t": name, "err": outcome_of_exception(e), "msg": str(e)[:100]})
             return out
         if k == "regex" and case.get("path"):
             from sigma.rule import SigmaRule
@@ -377,6 +399,25 @@ def judge(case, impl, reply):
                 continue
             if d["model"] != r["text"]:
                 drift = f"{src!r} under {cfg['name']}: model text {uncps(d['model'])!r} vs impl {uncps(r['text'])!r}"
+        # the library's own round trip through the plain form (replace_string): identical value / only the rewritten letter changes
+        for r in impl.get("replaced", []):
+            name, rx, rep, skip = next(x for x in REPLACERS if x[0] == r["t"])
+            want = [ord(rep) if (len(rx) == 1 and p_ == ord(rx)) else p_ for p_ in reply["parts"]]
+            what_t = (f"replace_string(regex={rx!r}, replacement={rep!r}{', skip_special=True' if skip else ''}) "
+                      + ("(matches nothing in the value)" if len(rx) > 1 else "(rewrites the plain letter only)"))
+            if "err" in r:
+                return Verdict("violation", f"{src!r} through {what_t}: {r['err']} {r.get('msg')}", nt, key, tags=tags + (f"replace:{name}",))
+            if r["parts"] != want:
+                # D3 at work: a literal backslash directly before a wildcard is written as '\\*' in the plain form, which is
+                # the spelling of a literal star (only the plain-form mode, only this adjacency)
+                fid = "D3" if (not skip and _bs_before_wildcard(reply["parts"])) else None
+                v_ = Verdict("violation", (f"{src!r} through {what_t} comes back as {show(r['parts']) if r['parts'] is not None else r['type']!r} "
+                                           f"instead of {show(want)!r} (<*>, <?> = wildcards)"), nt, key, finding=fid, tags=tags + (f"replace:{name}",))
+                if fid is None:
+                    return v_
+                known = known or v_
+            if name == "id-plain" and "replaceId" in reply and r.get("parts") != reply["replaceId"]:
+                drift = f"{src!r} through {what_t}: model (Lean replaceIdentity) {show(reply['replaceId'])!r} vs impl {show(r.get('parts'))!r}"
         if known is not None:
             return known
         if impl["plain"] != reply["plain"]:
@@ -437,6 +478,10 @@ def _d3_class(parts):
         if a == ord("\\") and (b in ("*", "?") or b in (ord("\\"), ord("*"), ord("?"))):
             return True
     return False
+
+
+def _bs_before_wildcard(parts):
+    return any(a == ord("\\") and b in ("*", "?") for a, b in zip(parts, parts[1:]))
 
 
 def shrink(case, v, evaluate):
